@@ -468,6 +468,63 @@ def asm_all():
         if len(calls) != 2:
             die(fname + ": expected two DOTRANSPOSE invocations")
         P("Definition %s_avx2_dotranspose_calls : list (list Z) := [%s]." % (base, "; ".join("[%s]" % "; ".join(re.findall(r"ymm(\d)", c)) for c in calls)))
+    # ---- jchuff-sse2.asm: mask table, the nbits table and its mirror for negative (one's complement) indices, struct layout
+    P("(* ---- jchuff-sse2.asm: jpeg_mask_bits, jpeg_nbits_table (runs (count, value)) preceded by its mirror image, struct offsets ---- *)")
+    txt = re.sub(r";.*", "", rd("simd/x86_64/jchuff-sse2.asm"))
+    m = re.search(r"jpeg_mask_bits\s+dd\s+((?:0x[0-9A-Fa-f]+[,\s]*(?:dd\s+)?)+)", txt)
+    if not m:
+        die("jchuff-sse2.asm: jpeg_mask_bits table not found")
+    mb = [int(x, 16) for x in re.findall(r"0x[0-9A-Fa-f]+", m.group(1))]
+    P("Definition jchuff_sse2_mask_bits : list Z := [%s]." % "; ".join(map(str, mb)))
+    i_lab = txt.find("EXTN(jpeg_nbits_table):")
+    if i_lab < 0:
+        die("jchuff-sse2.asm: jpeg_nbits_table label not found")
+    def runs(seg):
+        out = []
+        for line in seg.split("\n"):
+            mm = re.match(r"\s*times\s+1\s*(?:<<\s*(\d+))?\s+db\s+(\d+)\s*$", line)
+            if mm:
+                out.append((1 << int(mm.group(1)) if mm.group(1) else 1, int(mm.group(2))))
+        return out
+    pre = txt[m.end():txt.rfind("GLOBAL_DATA(jpeg_nbits_table)", 0, i_lab)]
+    post = txt[i_lab:txt.find("ALIGNZ", i_lab)]
+    rneg, rpos = runs(pre), runs(post)
+    if not rneg or not rpos:
+        die("jchuff-sse2.asm: nbits table rows not found")
+    P("Definition jchuff_sse2_nbits_mirror : list (Z * Z) := [%s]." % "; ".join("(%d, %d)" % r for r in rneg))
+    P("Definition jchuff_sse2_nbits_rows : list (Z * Z) := [%s]." % "; ".join("(%d, %d)" % r for r in rpos))
+    if not re.search(r"%define\s+MASK_BITS\(x\)\s+NBITS\(\(x\)\s*\*\s*4\)\s*\+\s*\(jpeg_mask_bits\s*-\s*EXTN\(jpeg_nbits_table\)\)", txt):
+        die("jchuff-sse2.asm: MASK_BITS(x) addressing changed")
+    st = re.search(r"struc c_derived_tbl\s*\n\.ehufco:\s+resd\s+(\d+)\s*\n\.ehufsi:\s+resb\s+(\d+)", txt)
+    if not st:
+        die("jchuff-sse2.asm: struc c_derived_tbl changed")
+    ch = rd("src/jchuff.h")
+    if not re.search(r"unsigned int ehufco\[256\];", ch) or not re.search(r"char ehufsi\[256\];", ch):
+        die("jchuff.h: c_derived_tbl layout changed")
+    P("Definition jchuff_sse2_tbl_layout : Z * Z := (%s, %s).   (* ehufco dwords, ehufsi bytes; jchuff.h declares [256] of each *)" % st.groups())
+    # the immediates of the run/size loop
+    loop = txt[txt.find(".BRLOOP:"):]
+    mlea = re.search(r"lea\s+code_temp,\s*\[nbitsq\s*-\s*(\d+)\]", loop)
+    facts = [int(mlea.group(1))] if mlea else []
+    m16 = re.findall(r"cmp\s+nbits,\s*(\d+)", loop)
+    zrl = re.findall(r"c_derived_tbl\.ehuf(?:si|co)\s*\+\s*(0x[0-9a-fA-F]+)", loop)
+    eob = re.search(r"cmp\s+td,\s*\(DCTSIZE2\s*-\s*(\d+)\)\s*\*\s*SIZEOF_WORD", loop)
+    sym = re.search(r"ehufco\s*\+\s*\(tempq\s*-\s*(\d+)\)\s*\*\s*4", loop)
+    if not facts or not m16 or not zrl or not eob or not sym:
+        die("jchuff-sse2.asm: run/size loop shape changed")
+    P("Definition jchuff_sse2_loop_consts : list Z := [%d; %s; %s; %s; %s].   (* ZRL decrement, run limit compares, ZRL symbol(s), EOB position test, symbol index bias *)" % (
+        facts[0], "; ".join(sorted(set(m16))), "; ".join(str(int(z, 16)) for z in sorted(set(zrl))), eob.group(1), sym.group(1)))
+    # zigzag order of the C code
+    ju = rd("src/jutils.c")
+    mz = re.search(r"const int jpeg_natural_order\[DCTSIZE2 \+ 16\]\s*=\s*\{([^}]*)\}", re.sub(r"/\*.*?\*/", "", ju, flags=re.S))
+    if not mz:
+        die("jutils.c: jpeg_natural_order not found")
+    zz = [int(x) for x in re.findall(r"\d+", mz.group(1))]
+    P("Definition c_jpeg_natural_order : list Z := [%s]." % "; ".join(map(str, zz[:64])))
+    # the order the kernel gathers the block in, as its row comments state it; cross-checked by the tagged-block correspondence
+    pins = re.findall(r"pinsrw\s+xmm(\d),\s*word \[block \+ (\d+) \* SIZEOF_WORD\],\s*(\d)", txt)
+    P("Definition jchuff_sse2_pinsrw : list (Z * Z * Z) := [%s].   (* register, block index, lane *)" % "; ".join("(%s, %s, %s)" % p for p in pins))
+    P()
     # h2v2 merged upsampling = two calls of the h2v1 routine: which luma/output row each call handles, in call order
     for isa in ("sse2", "avx2"):
         fname = "jdmrgext-%s.asm" % isa
